@@ -171,6 +171,32 @@ Definition np_sliding_window {A : Type} (X : nd A) (w0 w1 : Z) : nd A :=
   | _ => mkNd true [] (elt X)
   end.
 
+(* np.lib.stride_tricks.as_strided(X, shape=, strides=) of a C-CONTIGUOUS array X (np.copy and
+   .copy(deep=True).data are): element [idx] of the view is the element of X at memory offset
+   sum idx_k * strides_k.  Strides are counted in ELEMENTS here (numpy counts bytes on both sides,
+   X.strides and the strides= argument: the item size cancels).  A negative dimension is an error;
+   a read outside the memory of X is undefined behaviour in numpy -- the lemma about the generated
+   sliding_window proves every offset of the view inside it. *)
+Fixpoint c_strides (s : list Z) : list Z :=
+  match s with
+  | [] => []
+  | _ :: t => fold_right Z.mul 1 t :: c_strides t
+  end.
+Definition np_strides {A : Type} (X : nd A) : list Z := c_strides (shp X).
+Fixpoint dot (a b : list Z) : Z :=
+  match a, b with
+  | x :: a', y :: b' => x * y + dot a' b'
+  | _, _ => 0
+  end.
+Fixpoint unravel (s : list Z) (off : Z) : list Z :=
+  match s with
+  | [] => []
+  | _ :: t => let p := fold_right Z.mul 1 t in off / p :: unravel t (off mod p)
+  end.
+Definition np_as_strided {A : Type} (X : nd A) (shape strides : list Z) : nd A :=
+  mkNd (err X || negb (Nat.eqb (length shape) (length strides)) || existsb (fun n => n <? 0) shape) shape
+       (fun idx => elt X (unravel (shp X) (dot idx strides))).
+
 (* X[y0:y1, x0:x1] of an array of rank >= 2 (0 <= y0 <= y1 <= extent, the same for x) *)
 Definition np_slice01 {A : Type} (X : nd A) (y0 y1 x0 x1 : Z) : nd A :=
   match shp X with
